@@ -6,6 +6,7 @@ pub mod c05;
 pub mod c06;
 pub mod c08;
 pub mod c09;
+pub mod c17;
 
 /// Print the reference model's and the real parser's view of one case (used by `replay`).
 pub fn show_case(g: &crate::gram::G, input: &[char]) {
